@@ -1,0 +1,46 @@
+package xproto
+
+import (
+	"strings"
+	"unicode"
+)
+
+// SqueezeText collapses every run of white space outside of string literals in
+// a prototext document into a single space, and trims both ends. Unlike
+// strings.Fields it leaves the content of quoted string literals untouched, so
+// that a value such as "a  b" survives the normalization of prototext's
+// deliberately unstable output.
+func SqueezeText(text string) string {
+	var b strings.Builder
+	b.Grow(len(text))
+	var quote rune // the quote rune of the string literal we are in, or 0
+	escaped := false
+	pendingSpace := false
+	for _, r := range text {
+		if quote != 0 {
+			b.WriteRune(r)
+			switch {
+			case escaped:
+				escaped = false
+			case r == '\\':
+				escaped = true
+			case r == quote:
+				quote = 0
+			}
+			continue
+		}
+		if unicode.IsSpace(r) {
+			pendingSpace = true
+			continue
+		}
+		if pendingSpace && b.Len() > 0 {
+			b.WriteByte(' ')
+		}
+		pendingSpace = false
+		b.WriteRune(r)
+		if r == '"' || r == '\'' {
+			quote = r
+		}
+	}
+	return b.String()
+}
